@@ -745,6 +745,17 @@ def _logical_and(a, b):
     return Pred.conj([a if isinstance(a, (bool, np.bool_)) else as_pred(a), b if isinstance(b, (bool, np.bool_)) else as_pred(b)])
 
 
+def _logical_not(a):
+    if isinstance(a, (bool, np.bool_)):
+        return not a
+    return as_pred(a).negate()
+
+
+def _logical_or(a, b):
+    from .interp import _disj
+    return _disj([a, b])
+
+
 def _isnan(x):
     return term('isnan', x)
 
@@ -757,6 +768,22 @@ def _jnp_any(x, **k):
     if isinstance(x, (list, tuple)):
         return Sym('any', *[fz(v) for v in x])
     return term('any', x)
+
+
+def _linspace(start, stop, num=50, endpoint=True, **kw):
+    return Sym('linspace', fz(start), fz(stop), fz(num), bool(fz(endpoint)))
+
+
+def _round(x, *a):
+    if isinstance(x, (Poly, Sym, AT)):
+        return x
+    return round(x, *a)
+
+
+def _meshgrid(*vecs, indexing="xy", **kw):
+    if any(_is_opaque(v) for v in vecs):
+        return [Sym('meshgrid', tuple(fz(v) for v in vecs), fz(indexing), i) for i in range(len(vecs))]
+    return alg.jnp_meshgrid(*vecs, indexing=indexing)
 
 
 def _take(a, indices, axis=None, **kw):
@@ -775,11 +802,31 @@ def _random_split(key, num=2):
 
 
 def _random_uniform(key, shape=(), dtype=None, minval=0.0, maxval=1.0):
-    return term('uniform', key, shape, minval=minval, maxval=maxval)
+    """tensor of independent draws: every entry is the atom uniform[key](minval, maxval) varying along the named axes"""
+    try:
+        axes = alg.shape_axes(shape)
+    except Top:
+        return term('uniform', key, shape, minval=minval, maxval=maxval)
+    named = frozenset(a for a in axes if not isinstance(a, int))
+    cs = tuple(a for a in axes if isinstance(a, int))
+    dat = np.empty(cs, dtype=object)
+    for i in np.ndindex(cs):
+        dat[i] = Poly.atom(('R', fz(key), fz(minval), fz(maxval), named))
+    return AT(axes, dat)
 
 
 def _random_choice(key, a, shape=(), replace=True, p=None, axis=0):
+    # choice(key, a, shape=(a.shape[0],), replace=False, p=p) is a (weighted) random permutation of the rows of a
+    sh = fz(shape)
+    if fz(replace) is False and fz(axis) == 0 and isinstance(sh, tuple) and len(sh) == 1 and sh[0] == Sym('dim', fz(a), 0):
+        return Sym('row_permutation', fz(key), fz(a), fz(p))
     return term('choice', key, a, shape=shape, replace=replace, p=p, axis=axis)
+
+
+def _random_permutation(key, x, axis=0, independent=False):
+    if fz(axis) == 0 and fz(independent) is False:
+        return Sym('row_permutation', fz(key), fz(x), None)
+    return term('permutation', key, x, axis=axis, independent=independent)
 
 
 def _dynamic_slice(operand, start_indices, slice_sizes):
@@ -921,12 +968,12 @@ def make_world_externals(world_ref):
              arange=symaware('arange', alg.jnp_arange), moveaxis=symaware('moveaxis', alg.jnp_moveaxis),
              transpose=symaware('transpose', alg.jnp_transpose), diag=symaware('diag', alg.jnp_diag),
              matmul=symaware('matmul', alg.jnp_matmul), dot=symaware('dot', alg.jnp_dot),
-             meshgrid=symaware('meshgrid', alg.jnp_meshgrid),
+             meshgrid=_meshgrid, linspace=_linspace,
              linalg=NS("jnp.linalg", norm=symaware('linalg.norm', alg.jnp_linalg_norm)),
              s_=IndexExpr(), ndarray=ExternalClass('jnp.ndarray'),
              iinfo=IInfo, int32='int32', float32='float32', float64='float64', int64='int64',
              inf=Poly.atom(('K', 'inf')), nan=Poly.atom(('K', 'nan')), pi=Poly.atom(('K', 'pi')),
-             isnan=_isnan, any=_jnp_any, all=_jnp_all, logical_and=_logical_and,
+             isnan=_isnan, any=_jnp_any, all=_jnp_all, logical_and=_logical_and, logical_not=_logical_not, logical_or=_logical_or,
              count_nonzero=opaque_fn('count_nonzero'), argsort=opaque_fn('argsort'),
              unravel_index=lambda idx, shape: tuple(Sym('unravel_index', fz(idx), fz(shape), i) for i in range(len(shape))),
              take=_take, einsum=_einsum, split=opaque_fn('split_array'), cumsum=opaque_fn('cumsum'),
@@ -944,7 +991,7 @@ def make_world_externals(world_ref):
              stop_gradient=stop_gradient_value, top_k=_top_k,
              with_sharding_constraint=lambda x, s: x)
     random = NS("jax.random", split=_random_split, uniform=_random_uniform, choice=_random_choice,
-                permutation=opaque_fn('permutation'), PRNGKey=opaque_fn('PRNGKey'), key=opaque_fn('PRNGKey'))
+                permutation=_random_permutation, PRNGKey=opaque_fn('PRNGKey'), key=opaque_fn('PRNGKey'))
     jax = NS("jax", numpy=jnp, lax=lax, random=random, tree_util=tree_util, tree=tree,
              nn=NS("jax.nn", one_hot=alg.one_hot),
              grad=alg.jax_grad, hessian=alg.jax_hessian, jacrev=alg.jax_jac, jacfwd=alg.jax_jac, jvp=alg.jax_jvp,
@@ -988,7 +1035,7 @@ def make_world_externals(world_ref):
         Exception=Exception, UserWarning=UserWarning, DeprecationWarning=DeprecationWarning,
         classmethod=ClassMethodW, staticmethod=StaticMethodW, property=PropertyW,
         Ellipsis=Ellipsis, NotImplemented=NotImplemented, object=object, repr=repr, id=id, chr=chr, ord=ord,
-        round=round, divmod=divmod, iter=iter, next=next,
+        round=_round, divmod=divmod, iter=iter, next=next,
     )
     builtins['None'] = None
     builtins['True'] = True
